@@ -350,6 +350,21 @@ def r6_select_keywords_reordered(o, rep, M, A):
     return o
 
 
+def r7_affinity_called_by_keywords(o, rep, M, A):
+    o[M] = rep(o[M], """        cost_matrix[index1, index2] = compute_affinity(
+            geometry1,
+            geometry2,
+            time_buffer=time_buffer,
+            freq_buffer=freq_buffer,
+        )""", """        cost_matrix[index1, index2] = compute_affinity(
+            freq_buffer=freq_buffer,
+            geometry2=geometry2,
+            time_buffer=time_buffer,
+            geometry1=geometry1,
+        )""")
+    return o
+
+
 DRIVER = r'''
 #!/usr/bin/env python3
 """apply named variants to the scratch repo, run repo tests + check (+ replay of the first violation), restore"""
